@@ -2,7 +2,9 @@
 # usage: tools/precommit.sh  - the driver builds, the manifest regenerates and validates, evidence files validate
 set -e
 export GOFLAGS=-mod=mod GOPROXY=off GOSUMDB=off GOTOOLCHAIN=local
-cd /verif/harness && go1.26.8 build -o /tmp/vcheck.precommit ./cmd/vcheck && rm -f /tmp/vcheck.precommit
+cd /verif/harness
+go1.26.8 build -o /tmp/vcheck.precommit ./cmd/vcheck || { echo "precommit: DRIVER BUILD FAILED"; exit 1; }
+rm -f /tmp/vcheck.precommit
 cd /verif && python3 tools/gen_manifest.py >/dev/null
 python3-vt - <<'PY'
 import json, jsonschema, glob
